@@ -191,14 +191,19 @@ func (w *World) List(ctx context.Context, list client.ObjectList, opts ...client
 			l.Items = append(l.Items, *s.DeepCopy())
 		}
 	case *corev1.NodeList:
+		// cluster-scoped: a namespace restriction matches nothing (the informer cache filters on the namespace index)
 		l.Items = nil
 		for _, s := range w.Nodes {
-			l.Items = append(l.Items, *s.DeepCopy())
+			if lo.Namespace == "" {
+				l.Items = append(l.Items, *s.DeepCopy())
+			}
 		}
 	case *corev1.NamespaceList:
 		l.Items = nil
 		for _, s := range w.Namespaces {
-			l.Items = append(l.Items, *s.DeepCopy())
+			if lo.Namespace == "" {
+				l.Items = append(l.Items, *s.DeepCopy())
+			}
 		}
 	case *corev1.SecretList:
 		l.Items = nil
